@@ -287,6 +287,11 @@ class Gen(object):
         if kind == "doc":
             op["name"] = ""
             op["args_ok"] = True
+        if not op["args_ok"]:
+            # (seeded round 5) WHICH argument is refused: not always the first one that is validated - the
+            # second cardinality of a Section behind a valid first one, values of a Property of which
+            # only a later one does not convert, a cardinality behind valid values (see World.apply)
+            op["badarg"] = r.randrange(0, 12)
         if kind == "sec":
             # the Section type plays no role for the tree structure (and is not in the model);
             # it varies so that code comparing whole objects or (name, type) pairs is exercised
@@ -486,6 +491,84 @@ class Gen(object):
                             "np": r.choice([mid_h, last("deep_low"), parent_of(top_h)])})
         return ops
 
+    def crowd_block(self):
+        """(seeded round 5) A container with MANY children (8-15 Sections and, below a Section, some
+        Properties; everywhere else a child list holds 0-4), then operations aimed at the LATER ones:
+        positions and keys beyond 5, a rename / a new child / an appended object that clashes with the
+        name of a late sibling, an extend argument of 4-7 objects of which only the last is refused (a
+        child of the container already, a duplicate, a clash, an ancestor). A check that looks at the
+        first entry, the first few siblings or at small indices only is not enough."""
+        r = self.rng
+        ops = []
+        top = self.construct("sec" if r.random() < 0.8 else "doc", True)
+        top["args_ok"] = True
+        top["mark"] = "crowd"
+        if top["kind"] == "sec" and top["name"] in ("",):
+            top["name"] = "crowd"
+        ops.append(top)
+        C = last("crowd")
+        n = r.randrange(8, 16)
+        for i in range(n):
+            kind = "sec" if top["kind"] == "doc" or r.random() < 0.7 else "prop"
+            op = self.construct(kind, False)
+            op.update({"parent": C, "args_ok": True, "name": "k%d" % i})
+            op.pop("empty", None)
+            ops.append(op)
+        late = lambda: "k%d" % r.randrange(n // 2, n)
+        kid = lambda: self.child_of(C)
+        for _ in range(r.randrange(2, 6)):
+            c = r.randrange(11)
+            if c == 0:
+                ops.append({"op": "insert", "p": C, "pos": r.randrange(5, n + 3), "x": r.choice([kid, self.anyobj])()})
+            elif c == 1:
+                ops.append({"op": "reorder", "x": kid(), "idx": r.choice([r.randrange(5, n + 3), -r.randrange(5, n + 3)])})
+            elif c == 2:
+                ops.append({"op": "set_item", "p": C, "sec_list": r.random() < 0.7,
+                            "key": r.choice([r.randrange(4, n + 2), -r.randrange(4, n + 2)]),
+                            "v": r.choice([kid, self.anyobj, self.anyobj])()})
+            elif c == 3:
+                ops.append(self.rename(r.choice([kid, self.child])(), late()))
+            elif c == 4:
+                op = self.construct(r.choice(["sec", "prop"]), False)
+                op.update({"parent": C, "name": late()})
+                op.pop("empty", None)
+                ops.append(op)
+            elif c == 5:
+                op = self.construct(r.choice(["sec", "prop"]), False)
+                op.update({"parent": None, "name": late(), "args_ok": True})
+                op.pop("empty", None)
+                ops.append(op)
+                ops.append(r.choice([{"op": "append", "p": C, "x": last("made")},
+                                     {"op": "insert", "p": C, "pos": r.randrange(-3, n + 2), "x": last("made")},
+                                     {"op": "set_parent", "x": last("made"), "np": C},
+                                     {"op": "set_item", "p": C, "sec_list": r.random() < 0.6,
+                                      "key": r.randrange(0, n), "v": last("made")}]))
+            elif c in (6, 7):
+                # a long argument: fresh objects that are fine, the offending one last (or in the middle)
+                xs = []
+                for j in range(r.randrange(4, 8)):
+                    op = self.construct(r.choice(["sec", "sec", "prop"]), False)
+                    op.update({"parent": None, "name": "x%d" % j, "args_ok": True, "mark": "arg%d" % j})
+                    op.pop("empty", None)
+                    ops.append(op)
+                    xs.append(last("arg%d" % j))
+                bad = r.choice([kid(), dict(r.choice(xs)), parent_of(C), C, self.anyobj()])
+                if r.random() < 0.75:
+                    xs.append(bad)
+                else:
+                    xs.insert(r.randrange(1, len(xs)), bad)
+                ops.append({"op": "extend", "p": r.choice([C, C, C, self.cont()]), "xs": xs,
+                            "form": r.choice(["list", "tuple", "iter"])})
+            elif c == 8:
+                ops.append({"op": "remove", "p": C, "x": kid()})
+            elif c == 9:
+                ops.append({"op": "set_parent", "x": kid(), "np": r.choice([kid(), self.cont(), None])})
+            else:
+                # another container's child with the name of a late sibling moves in
+                ops.append(self.rename(self.child(), late()))
+                ops.append({"op": "set_parent", "x": self.child(), "np": C})
+        return ops
+
     def oddpos_block(self):
         """(oracle-only stream) a position / key that is not a plain machine-size int - a float,
         integral or not, an int beyond the machine word, bool, None, text, NaN - handed to every
@@ -565,6 +648,9 @@ class Gen(object):
                 continue
             if self.odd and block < 0.27:
                 ops.extend(self.oddpos_block())
+                continue
+            if not self.odd and block < 0.225:
+                ops.extend(self.crowd_block())
                 continue
             choice = r.random()
             cont, anyobj, child = self.cont, self.anyobj, self.child
@@ -664,18 +750,37 @@ class World(object):
                 obj = odml.Document(oid=oid)
             elif k == "sec":
                 bad = (3, 1) if not op["args_ok"] else None
+                which = op.get("badarg", 0) % 3 if not op["args_ok"] else 0
                 if op.get("via") == "create" and parent is not None and op["args_ok"] \
                         and hasattr(parent, "create_section"):
                     obj = parent.create_section(name=name, type=op.get("stype", "t"), oid=oid)
+                elif which == 1:
+                    obj = odml.Section(name=name, type=op.get("stype", "t"), oid=oid, parent=parent,
+                                       prop_cardinality=bad)
+                elif which == 2:
+                    # the first cardinality is fine, the second is not
+                    obj = odml.Section(name=name, type=op.get("stype", "t"), oid=oid, parent=parent,
+                                       sec_cardinality=(0, 5), prop_cardinality="x")
                 else:
                     obj = odml.Section(name=name, type=op.get("stype", "t"), oid=oid, parent=parent,
                                        sec_cardinality=bad)
             else:
                 bad = (3, 1) if not op["args_ok"] else None
+                which = op.get("badarg", 0) % 4 if not op["args_ok"] else 0
                 vals = {"none": None, "list": []}.get(op.get("novals"), [1])
                 if op.get("via") == "create" and parent is not None and op["args_ok"] \
                         and hasattr(parent, "create_property"):
                     obj = parent.create_property(name=name, values=vals, oid=oid)
+                elif which == 1:
+                    # the first value converts, a later one does not
+                    obj = odml.Property(name=name, values=["7", "eight", "9"], dtype="int", oid=oid,
+                                        parent=parent)
+                elif which == 2 and parent is not None and hasattr(parent, "create_property"):
+                    obj = parent.create_property(name=name, values=["7", "eight"], dtype="int", oid=oid)
+                elif which == 3:
+                    # values that are fine, then a cardinality of the wrong shape
+                    obj = odml.Property(name=name, values=[1, 2], oid=oid, parent=parent,
+                                        val_cardinality=(1, 2, 3))
                 else:
                     obj = odml.Property(name=name, values=vals, oid=oid, parent=parent,
                                         val_cardinality=bad)
@@ -941,7 +1046,7 @@ def _attrs(o, k):
         if k == "prop":
             vals = o.values
             json.dumps(vals)
-            return {"unit": o.unit, "vals": vals}
+            return {"unit": o.unit, "vals": vals, "dt": o.dtype, "ref": o.reference}
     except Exception:
         pass
     return {}
@@ -1152,7 +1257,7 @@ def model_ops(done):
     out = []
     for op in done:
         m = dict((k, v) for k, v in op.items()
-                 if k not in ("via", "macro", "form", "iter_of", "mark", "novals"))
+                 if k not in ("via", "macro", "form", "iter_of", "mark", "novals", "badarg", "dt", "ref"))
         if isinstance(m.get("oid"), str):
             m["oid"] = model_text(m["oid"])
         out.append(m)
